@@ -81,6 +81,13 @@ func (p *PromiseContainer[T]) Await(ctx context.Context) (val T, err error) {
 			if ctx.Err() != nil {
 				return val, context.Canceled
 			}
+			select {
+			case <-waitCh:
+				// the promise was replaced: await the new one
+			default:
+				// context.Canceled is the result of the promise
+				return val, valErr
+			}
 		} else {
 			return val, valErr
 		}
@@ -118,6 +125,13 @@ func (p *PromiseContainer[T]) AwaitWithErrCh(ctx context.Context, errCh <-chan e
 		if valErr == context.Canceled {
 			if ctx.Err() != nil {
 				return val, context.Canceled
+			}
+			select {
+			case <-waitCh:
+				// the promise was replaced: await the new one
+			default:
+				// context.Canceled is the result of the promise
+				return val, valErr
 			}
 		} else {
 			return val, valErr
@@ -157,6 +171,13 @@ func (p *PromiseContainer[T]) AwaitWithCancelCh(ctx context.Context, cancelCh <-
 		if valErr == context.Canceled {
 			if ctx.Err() != nil {
 				return val, context.Canceled
+			}
+			select {
+			case <-waitCh:
+				// the promise was replaced: await the new one
+			default:
+				// context.Canceled is the result of the promise
+				return val, valErr
 			}
 		} else {
 			return val, valErr
